@@ -44,7 +44,10 @@ Inductive genv := GOk | GErr.              (* engine Get answers / fails (time-o
 Inductive cenv :=
 | COk                                      (* the batch is evaluated and answered *)
 | CErr                                     (* the commit fails, nothing applied *)
-| CUnknown.                                (* the commit takes effect iff its condition holds, but an error is reported *)
+| CUnknown                                 (* the commit takes effect iff its condition holds, but an error is reported *)
+| CRefused.                                (* the condition is evaluated and a failed one answered as such; a write whose condition
+                                              holds is refused by the engine with an error (TiKV: prewrite answered with a
+                                              Retryable / Abort key error), nothing applied *)
 Inductive tenv := TOk (n : N) | TErr.      (* GetTimestampOracle *)
 Definition tval (t : tenv) : N := match t with TOk n => n | TErr => 0 end.   (* r.tso, err = ...: 0 on error *)
 
@@ -108,6 +111,11 @@ Definition do_create (st : option lrec) (k : cand) (h b : bytes) (e : cenv) (t :
       | Some _ => mkOut st k RErr false false None
       | None => mkOut (Some (mkRec b (Some h))) k RErr true false None        (* applied, but :136-138 returns *)
       end
+  | CRefused =>
+      match st with
+      | Some _ => mkOut st k RConflict false false None
+      | None => mkOut st k RErr false false None
+      end
   end.
 
 (* Update, election.go:145-167: compare-and-swap against lastVal; lastVal is NOT refreshed *)
@@ -131,6 +139,10 @@ Definition do_update (st : option lrec) (k : cand) (h b : bytes) (e : cenv) (t :
         if cas_holds st (lastVal k)
         then mkOut (Some (mkRec b (Some h))) k RErr true false None
         else mkOut st k RErr false false None
+    | CRefused =>
+        if cas_holds st (lastVal k)
+        then mkOut st k RErr false false None
+        else mkOut st k RConflict false false None
     end.
 
 (* Describe, election.go:179-184: (holder or "empty", tso) *)
